@@ -522,6 +522,89 @@ func c03ReuseScenario(kindA, kindB string, flush string, maxpend int, dotu bool,
 	}})
 }
 
+// c03Renegotiate: a client renegotiates in mid-session (first a small msize, later a
+// larger one); whatever msize the server then admits, every request it forwards is
+// answered with exactly what the implementation produced for it - also when that
+// reply is larger than the replies of the first session were allowed to be.
+func c03Renegotiate(first, second uint32, dotu bool) Scenario {
+	name := fmt.Sprintf("replies-across-renegotiation msize %d then %d dotu=%v", first, second, dotu)
+	return Scenario{Name: name, Run: func(rc *RunCtx) *Result {
+		res := &Result{Exhaustive: true}
+		var bad string
+		body := func() {
+			fs := NewFS()
+			h := NewSrvH(fs, SrvOpt{Msize: 8216, Dotu: dotu, Maxpend: 2})
+			c := h.Connect()
+			ver := "9P2000"
+			if dotu {
+				ver = "9P2000.u"
+			}
+			tag := uint16(0)
+			rpc := func(m *wire.Msg) *wire.Msg { tag++; m.Tag = tag; return c.Rpc(m) }
+			for round, ms := range []uint32{first, second} {
+				if r := c.Version(ms, ver); r == nil || r.Type != wire.Rversion {
+					bad = fmt.Sprintf("Tversion(%d) answered by %v", ms, r)
+					return
+				}
+				eff := c.Msize
+				fid := uint32(10 * (round + 1))
+				rpc(tattach(0, fid, wire.NOFID, "glenda", 7, dotu))
+				rpc(twalk(0, fid, fid+1, "f"))
+				rpc(&wire.Msg{Type: wire.Topen, Fid: fid + 1, Mode: 0})
+				// a burst (several reply buffers in use at once), then reads of every size class
+				var burst []*wire.Msg
+				for i := 0; i < 6; i++ {
+					tag++
+					burst = append(burst, &wire.Msg{Type: wire.Tstat, Tag: tag, Fid: fid})
+				}
+				c.Send(dotu, burst...)
+				vs.Idle()
+				for _, cnt := range []uint32{1, 16, first - 24, first - 23, eff - 24, second - 24} {
+					if cnt == 0 || cnt > 1<<20 {
+						continue
+					}
+					tag++
+					fs.Script[reqKey{0, tag, 0}] = &Action{ReadFull: true}
+					before := len(c.Collect())
+					c.Send(dotu, &wire.Msg{Type: wire.Tread, Tag: tag, Fid: fid + 1, Offset: 3, Count: cnt})
+					vs.Idle()
+					res.Evals++
+					fr := c.Collect()[before:]
+					if len(fr) != 1 || fr[0].Msg == nil || fr[0].Msg.Tag != tag {
+						bad = fmt.Sprintf("Tread count %d at msize %d: %d replies", cnt, eff, len(fr))
+						return
+					}
+					if uint32(len(fr[0].Raw)) > eff {
+						bad = fmt.Sprintf("a reply of %d bytes at msize %d", len(fr[0].Raw), eff)
+						return
+					}
+					resps := fs.resps(0, tag, 0)
+					if len(resps) == 0 {
+						continue // refused by the framework: not forwarded, its own Rerror
+					}
+					if got := renderReply(fr[0].Msg); got != resps[0].Reply {
+						bad = fmt.Sprintf("after renegotiating from msize %d to %d (now %d): Tread count %d was forwarded and the implementation produced %q, the reply on the wire is %q", first, second, eff, cnt, resps[0].Reply, got)
+						return
+					}
+				}
+			}
+		}
+		x := vs.Run(nil, body, vs.Options{})
+		res.Nontrivial = res.Evals
+		res.Traces = 1
+		if len(x.Panics) > 0 {
+			bad = "panic: " + x.Panics[0].Value
+		} else if len(x.Fails) > 0 && bad == "" {
+			bad = "harness: " + x.Fails[0]
+		}
+		if bad != "" {
+			res.Findings = append(res.Findings, Finding{Sig: "C03/wrong-content/across-renegotiation/" + sigWords(bad), Msg: name + ": " + bad})
+		}
+		res.Samples = append(res.Samples, "two sessions on one connection; per session attach, walk, open, a burst of 6 Tstat, reads of 6 size classes with an implementation returning exactly count bytes")
+		return res
+	}}
+}
+
 func gatedOf(scripts ...string) []int {
 	var g []int
 	for i, sc := range scripts {
@@ -548,6 +631,9 @@ func perms(xs []int) [][]int {
 
 func c03Scenarios(tier string) []Scenario {
 	var out []Scenario
+	for i, pr := range [][2]uint32{{64, 1024}, {128, 8216}, {1024, 64}, {256, 256}} {
+		out = append(out, c03Renegotiate(pr[0], pr[1], i%2 == 0))
+	}
 	add := func(reqs []reqSpec, maxpend int, dotu, oneseg bool, P int) {
 		var gated []int
 		for i, r := range reqs {
@@ -625,7 +711,7 @@ func c03Scenarios(tier string) []Scenario {
 func init() {
 	register(&Property{ID: "C03", Level: "model_checking",
 		Technique: "stateless model checking of the real server under a controlled scheduler (all schedules within a preemption bound)",
-		Rule:      "every schedule with at most P preemptions (P iterated 0..bound, select-case choices free) of server recv/worker/send goroutines + scripted implementation + releaser, per scenario (request kinds x scripts x release order x Maxpend x dialect x segmentation; late answers of cancelled requests; a reactive client re-using a tag the moment its reply is read, with and without a Tflush of the second use and a third use after the Rflush); distinct = distinct per-object operation orders (trace hash)",
+		Rule:      "every schedule with at most P preemptions (P iterated 0..bound, select-case choices free) of server recv/worker/send goroutines + scripted implementation + releaser, per scenario (request kinds x scripts x release order x Maxpend x dialect x segmentation; late answers of cancelled requests; a reactive client re-using a tag the moment its reply is read, with and without a Tflush of the second use and a third use after the Rflush; sessions renegotiated to a larger / smaller msize with reads of every size class); distinct = distinct per-object operation orders (trace hash)",
 		Assumptions: []string{"code between two synchronisation operations is atomic (sound for race-free executions; C19 checks race freedom)", "transport modelled as an unbounded reliable byte queue", "map iteration fixed to ascending key order"},
 		Scenarios:   c03Scenarios, QuickS: 180, ThoroughS: 1500})
 }
